@@ -1,42 +1,64 @@
 #!/usr/bin/env python3
 """Re-run the property's quick check against kept seeded changes and update
-their meta.json.  usage: seedretest.py [<seed-dir-name> ...]  (default: all)"""
+their meta.json.  Each change is applied to a PRIVATE COPY of /repo's working
+tree and the check is pointed at it with VERIF_REPO (so /repo is not touched
+and several can run in parallel).
+
+usage: seedretest.py [-j N] [<seed-dir-name> ...]   (default: all seeds)"""
+import concurrent.futures
 import glob
 import json
 import os
+import shutil
 import subprocess
 import sys
+import tempfile
 
 ROOT = os.path.dirname(os.path.dirname(os.path.abspath(__file__)))
 
 
-def sh(cmd, timeout=3000):
-    p = subprocess.run(cmd, cwd=ROOT, shell=True, stdout=subprocess.PIPE, stderr=subprocess.STDOUT, text=True,
+def sh(cmd, cwd=ROOT, env=None, timeout=3600):
+    p = subprocess.run(cmd, cwd=cwd, shell=True, env=env, stdout=subprocess.PIPE, stderr=subprocess.STDOUT, text=True,
                        errors="replace", timeout=timeout)
     return p.returncode, p.stdout
 
 
-names = sys.argv[1:] or [os.path.basename(d) for d in sorted(glob.glob(os.path.join(ROOT, "seeded", "*")))]
-for n in names:
+def one(n):
     d = os.path.join(ROOT, "seeded", n)
     pid = n.split("-")[0]
     meta = json.load(open(os.path.join(d, "meta.json")))
-    rc, o = sh("git -C /repo status --short | grep -v '^??'")
-    if o.strip():
-        print(n, "skipped: /repo has local modifications:", o.strip())
-        continue
-    rc, o = sh("git -C /repo apply %s" % os.path.join(d, "patch.diff"))
-    if rc != 0:
-        print(n, "patch does not apply any more:", o.strip()[:200])
-        meta["applies_to_repo"] = False
-        json.dump(meta, open(os.path.join(d, "meta.json"), "w"), indent=1)
-        continue
+    copy = tempfile.mkdtemp(prefix="shk-seedrepo-")
     try:
-        rc, o = sh("./check %s --tier quick" % pid)
+        sh("rsync -a --exclude .git /repo/ %s/" % copy)
+        # start from HEAD's content for tracked files (ignore others' transient edits)
+        sh("git -C /repo archive HEAD | tar -x -C %s" % copy)
+        rc, o = sh("git apply %s" % os.path.join(d, "patch.diff"), cwd=copy)
+        if rc != 0:
+            meta["applies_to_repo"] = False
+            json.dump(meta, open(os.path.join(d, "meta.json"), "w"), indent=1)
+            return n, "patch does not apply any more: " + o.strip()[:200]
+        env = dict(os.environ, VERIF_REPO=copy)
+        rc, o = sh("./check %s --tier quick" % pid, env=env)
     finally:
-        sh("git -C /repo apply -R %s" % os.path.join(d, "patch.diff"))
+        shutil.rmtree(copy, ignore_errors=True)
     lines = [l for l in o.split("\n") if l.startswith(("VIOLATION", "OK ", "KNOWN-FINDING"))]
-    meta.update({"check_exit": rc, "check_output": lines, "detected": rc != 0,
+    meta.update({"check_exit": rc, "check_output": lines, "detected": rc != 0, "applies_to_repo": True,
                  "detected_with_failing_input": any(l.startswith("VIOLATION") and "no-failing-input-found" not in l for l in lines)})
     json.dump(meta, open(os.path.join(d, "meta.json"), "w"), indent=1)
-    print(n, "detected" if rc != 0 else "NOT DETECTED", "(failing input)" if meta["detected_with_failing_input"] else "")
+    return n, ("detected" if rc != 0 else "NOT DETECTED") + (" (failing input)" if meta["detected_with_failing_input"] else "")
+
+
+def main():
+    args = sys.argv[1:]
+    j = 3
+    if args and args[0] == "-j":
+        j = int(args[1])
+        args = args[2:]
+    names = args or [os.path.basename(d) for d in sorted(glob.glob(os.path.join(ROOT, "seeded", "*")))]
+    with concurrent.futures.ThreadPoolExecutor(max_workers=j) as ex:
+        for n, r in ex.map(one, names):
+            print(n, r, flush=True)
+
+
+if __name__ == "__main__":
+    main()
